@@ -276,6 +276,34 @@ func runC07(k *eng.Check, tier string) {
 		// nil refCheck short-circuit is the documented opt-out used only by the frozen callers below
 	}
 
+	// ---- (4b) a chunk whose references cannot be walked is not treated as a chunk without references: wherever the
+	// child-address callback (chunks.InsertAddrsCb) is invoked to feed a reference check, its error is tested and the
+	// check (the refCheck call) is reached only on its nil edge
+	mWalk := eng.DynOfType("store/chunks.InsertAddrsCb")
+	nWalk := 0
+	for _, fn := range nbs {
+		walks := eng.Calls(fn, mWalk, false)
+		if len(walks) == 0 {
+			continue
+		}
+		checks := eng.CallSet(fn, eng.AnyOf(mChecker, eng.DynOfType("(store/hash.HashSet, error)")))
+		if checks.Len() == 0 {
+			continue // the callback is invoked for another purpose (e.g. GC marking, decided under C08)
+		}
+		k.FuncsSeen[fn] = true
+		for _, w := range walks {
+			nWalk++
+			okc := eng.OkCut(w)
+			k.Require("walker-error-consumed", eng.Name(fn)+"#walk", "the error of the child-address walk feeding a reference check is tested", okc.Len() > 0, c.InstrPos(w.(ssa.Instruction)), "the walker's error is dropped: a chunk that cannot be walked is checked as if it referenced nothing")
+			if okc.Len() > 0 {
+				k.OnlyAfter("walker-error-consumed", fn, "after a child-address walk, the reference check is reached only if the walk returned nil", checks, 1, okc, eng.After(w.(ssa.Instruction)))
+			}
+		}
+	}
+	if nWalk < 2 {
+		k.Unknown("walker-error-consumed", "store/nbs", "child-address walks feeding a reference check", fmt.Sprintf("%d found (floor 2)", nWalk))
+	}
+
 	// ---- (5) who may add table files without a reference check
 	unchecked := map[string]string{
 		"(*store/nbs.NomsBlockStore).UpdateManifest":             "administrative entry point (table files produced by this store's own tools)",
